@@ -193,7 +193,110 @@ func addrPool(r *rand.Rand) []string {
 func gapTable() []int64 {
 	pc, mt, gc := consts["packetCost"], consts["maxTokens"], consts["garbageCollectTime"]
 	return []int64{0, 0, 0, 1, 2, pc / 2, pc - 1, pc, pc + 1, pc + 2, 2*pc - 1, 2 * pc, 2*pc + 1, 3 * pc, 4*pc - 1, 4 * pc, 4*pc + 1,
-		mt - pc - 1, mt - pc, mt - pc + 1, mt - 1, mt, mt + 1, gc - pc, gc - 1, gc, gc + 1, gc + 2, gc + pc, 2 * gc, 2*gc + 1, 5 * gc}
+		mt - pc - 1, mt - pc, mt - pc + 1, mt - 1, mt, mt + 1, gc - pc, gc - 1, gc, gc + 1, gc + 2, gc + pc, 2 * gc, 2*gc + 1, 5 * gc,
+		// the property's own numbers, whatever the code's constants are now
+		propCost - 1, propCost, propCost + 1, propNew - 1, propNew, propNew + 1, propNew + propCost/2, propFull - 1, propFull, propFull + 1,
+		propGC - 1, propGC, propGC + 1}
+}
+
+// The numbers of the property text (NOT read from the code): 50 ms per packet,
+// a new entry starts at 200 ms of tokens, a full bucket is 250 ms, entries idle
+// for more than 1 s are forgotten.
+const (
+	propCost = int64(50000000)
+	propNew  = int64(200000000)
+	propFull = int64(250000000)
+	propGC   = int64(1000000000)
+)
+
+// genGcInGap: for one address, rounds of  drain (burst at one instant, then a
+// few closely spaced arrivals that leave the bucket below one packet) - idle
+// gap around one of the property's thresholds - a collection pass INSIDE the
+// gap - burst of >= 6 - closely spaced follow-ups.  If forgetting the entry
+// during the gap changes anything, the follow-ups decide differently with and
+// without the pass.  Other addresses are sprinkled in between.
+func genGcInGap(r *rand.Rand, n int) Case {
+	pool := addrPool(r)
+	hot := r.Intn(len(pool))
+	t := starts[r.Intn(3)]
+	if r.Intn(6) == 0 {
+		t = []int64{0, -1000000000, math.MinInt64 + 1}[r.Intn(3)]
+	}
+	var ops []Op
+	small := func() int64 {
+		switch r.Intn(8) {
+		case 0:
+			return 1
+		case 1:
+			return 1000000
+		case 2:
+			return propCost - 1
+		case 3:
+			return propCost / 2
+		case 4:
+			return 10000000 + r.Int63n(30000000)
+		default:
+			return r.Int63n(propCost)
+		}
+	}
+	other := func() {
+		if len(pool) > 1 && r.Intn(3) == 0 {
+			a := r.Intn(len(pool))
+			if a != hot {
+				ops = append(ops, Op{A: a, T: t})
+			}
+		}
+	}
+	burst := func(k int) {
+		for i := 0; i < k; i++ {
+			ops = append(ops, Op{A: hot, T: t})
+		}
+	}
+	follow := func(k int) {
+		for i := 0; i < k; i++ {
+			t += small()
+			ops = append(ops, Op{A: hot, T: t})
+			other()
+		}
+	}
+	bases := []int64{propCost, propNew, propNew, propNew + propCost/2, propNew + propCost/2, propFull, propFull, propGC, propGC}
+	for len(ops) < n {
+		burst(6 + r.Intn(3))
+		follow(r.Intn(4))
+		g := bases[r.Intn(len(bases))]
+		switch r.Intn(5) {
+		case 0:
+		case 1:
+			g += 1
+		case 2:
+			g -= 1
+		default:
+			g += r.Int63n(10000001) - 5000000 // +- 5 ms
+		}
+		if r.Intn(4) == 0 { // anywhere between the new-entry level and a full refill
+			g = propNew + 1 + r.Int63n(propFull-propNew-1)
+		}
+		if g < 1 {
+			g = 1
+		}
+		// collection pass(es) inside the gap: at its end, 1 ns before, a little before, anywhere
+		t0 := t
+		passAt := []int64{g, g, g - 1, g - r.Int63n(10000000), r.Int63n(g) + 1}[r.Intn(5)]
+		if passAt < 0 {
+			passAt = 0
+		}
+		if r.Intn(8) != 0 {
+			if r.Intn(4) == 0 && passAt > 1 {
+				ops = append(ops, Op{A: -1, T: t0 + passAt/2})
+			}
+			ops = append(ops, Op{A: -1, T: t0 + passAt})
+		}
+		t = t0 + g
+		burst(6 + r.Intn(3))
+		follow(3 + r.Intn(5))
+		t += small()
+	}
+	return Case{Addrs: pool, Ops: ops, Pa: hot, Gen: "gc-in-gap"}
 }
 
 var starts = []int64{1700000000000000000, 1700000000000000000, 1700000000000000000, 0, 1, -1, -1000000000, math.MinInt64, math.MinInt64 + 1,
@@ -687,7 +790,12 @@ func main() {
 			if i%10 == 0 {
 				ln = 4 + r.Intn(20)
 			}
-			c := genHistory(r, ln)
+			var c Case
+			if i%6 == 3 {
+				c = genGcInGap(r, ln)
+			} else {
+				c = genHistory(r, ln)
+			}
 			fill(&c)
 			cases = append(cases, c)
 		}
